@@ -440,6 +440,7 @@ func (m *machine) splitAtFirstOf1(r *Term, set []byte) (*Term, *Term) {
 		g2 := m.freshStr("re_name")
 		g3 := m.freshStr("re_rest")
 		m.assume(mkStrEq(rest, mkConcat(g2, g3)))
+		m.noteFold(mkConcat(g2, g3), rest)
 		for _, b := range set {
 			m.assume(mkNot(mkContains(g2, mkStr(string([]byte{b})))))
 		}
